@@ -170,6 +170,14 @@ class C02:
         return X.tables(res), None, K.take_outside_calls(), sink, exp
 
     def run(self, cfg, seed, choices=None):
+        try:
+            return self._run(cfg, seed, choices)
+        except X.InvalidSpec:
+            import hashlib as _h, json as _j
+            return {"digest": _h.blake2b(_j.dumps(cfg, sort_keys=True).encode(), digest_size=16).hexdigest(), "trace": [], "nontrivial": False,
+                    "violation": None, "violations": [], "counters": {"invalid_spec": 1}, "sample": None}
+
+    def _run(self, cfg, seed, choices=None):
         spec = cfg["spec"]
         is_gz = cfg["gz"]
         tmp = tempfile.mkdtemp(prefix="c02_", dir=TMP_ROOT)
